@@ -387,6 +387,63 @@ async def _recovering_handler_scenario(timeouts: bool) -> tuple[list[Any], list[
         lsock.close()
 
 
+async def _scoped_handler_scenario(order: str, eager_return: bool) -> list[Any]:
+    """Low-level AsyncDatagramServer, a handler that bounds its wait with a cancel scope of its own around the yield (instead of yielding a
+    timeout).  The scope is cancelled (what its deadline would do) and the second datagram arrives in a chosen order within the same / the
+    neighbouring loop iterations - in particular while the cancelled client task has not run yet - and a third one later: all three are handled."""
+    from easynetwork.lowlevel.api_async.servers import datagram as dg
+    from easynetwork.protocol import DatagramProtocol
+    from easynetwork.serializers.json import JSONSerializer
+
+    backend = harness.HarnessBackend()
+    loop = asyncio.get_running_loop()
+    handled: list[Any] = []
+    cur: dict[str, Any] = {}
+
+    async def handler(ctx: Any) -> Any:
+        while True:
+            with backend.open_cancel_scope() as scope:
+                cur["scope"] = scope
+                req = yield
+            if scope.cancelled_caught():
+                if eager_return:
+                    return  # the generator ends: the next datagram of this client starts a fresh one
+                continue
+            handled.append(req)
+
+    listener = memtransport.MemDatagramListener(backend)
+    server = dg.AsyncDatagramServer(listener, DatagramProtocol(JSONSerializer()))
+    task = loop.create_task(server.serve(handler))
+    try:
+        await harness.settle()
+        addr = ("10.0.0.1", 1001)
+        listener.push(b"1", addr)
+        await harness.settle()
+        steps = {"push": lambda: listener.push(b"2", addr), "cancel": lambda: cur["scope"].cancel(), "hop": None}
+        seq = order.split(",")
+
+        def run_from(i: int) -> None:
+            while i < len(seq):
+                if seq[i] == "hop":
+                    loop.call_soon(run_from, i + 1)
+                    return
+                steps[seq[i]]()
+                i += 1
+
+        loop.call_soon(run_from, 0)
+        await asyncio.sleep(1.0)
+        await harness.settle()
+        listener.push(b"3", addr)
+        await asyncio.sleep(1.0)
+        await harness.settle()
+        if task.done():
+            handled.append(f"serve() ended: {task.exception()!r}")
+    finally:
+        task.cancel()
+        await asyncio.gather(task, return_exceptions=True)
+    return handled
+
+
 def _run_one(seed: int) -> list[dict[str, Any]]:
     return vloop.run(lambda: _scenario(seed))  # type: ignore[no-any-return]
 
@@ -407,6 +464,18 @@ def run(chk: Check) -> None:
         rec += part
     for i in range(12 if quick else 300):
         rec += asyncio.run(_real_listener_scenario(chk.seed * 13 + i))
+    for eager_return in (True, False):
+        for order in ("push,cancel", "cancel,push", "push,hop,cancel", "cancel,hop,push", "push,hop,hop,cancel", "cancel,hop,hop,push"):
+            handled = vloop.run(lambda: _scoped_handler_scenario(order, eager_return))
+            chk.traces += 1
+            chk.distinct.add(("scoped_handler", eager_return, order))
+            if handled != [1, 2, 3]:
+                chk.violation(
+                    {"kind": "handler_api", "what": "scoped_handler"},
+                    f"AsyncDatagramServer, a handler with a cancel scope of its own around its yield{' (returning when it is cancelled)' if eager_return else ''}; "
+                    f"after datagram 1: [{order}] (push = datagram 2 arrives, cancel = the scope expires, hop = next loop iteration), then datagram 3: handled {handled}",
+                    {"kind": "scoped_handler", "order": order, "eager_return": eager_return},
+                )
     for timeouts in (False, True):
         got, want = vloop.run(lambda: _recovering_handler_scenario(timeouts))
         chk.traces += 1
